@@ -158,6 +158,8 @@ def uniform_case(draw):
         import itertools
         d_, n_ = draw(st.sampled_from([(3, 5), (3, 6), (4, 5), (4, 6)]))
         A_ = np.asarray(draw(gens.array((d_, n_), 0.0, 6.0, styles=("int",))), dtype=float).reshape(d_, n_) + np.eye(d_, n_)
+        if np.linalg.matrix_rank(A_) < d_:
+            A_ = A_ + 25.0 * np.eye(d_, n_)        # receptors with linearly dependent captures: a flat gamut, not in the domain
         P = (np.array(list(itertools.product([0.0, 1.0], repeat=n_))) @ A_.T).tolist()
     else:
         P = draw(cloud(dmax=3))
@@ -171,6 +173,8 @@ def body_uniform(case):
     dreye = _dreye()
     P = np.asarray(case["P"], dtype=float)
     n = case["n"]
+    if np.linalg.matrix_rank(P[1:] - P[0], tol=1e-9 * max(1.0, float(np.max(np.abs(P))))) < P.shape[1]:
+        return ["flat-cloud-skipped"]            # the property is about full-dimensional hulls (2-4 dimensions)
     with calling("sample_in_hull(n=20000)"):
         X = np.asarray(dreye.sample_in_hull(P, n, seed=case["seed"]))
     check(X.shape == (n, P.shape[1]), "uniform:shape", f"{X.shape}")
@@ -227,6 +231,8 @@ def body_small_requests(case):
     dreye = _dreye()
     P = np.asarray(case["P"], dtype=float)
     n, calls, s0 = case["n"], case["calls"], case["seed"] % (2 ** 30)
+    if np.linalg.matrix_rank(P[1:] - P[0], tol=1e-9 * max(1.0, float(np.max(np.abs(P))))) < P.shape[1]:
+        return ["flat-cloud-skipped"]            # the property is about full-dimensional hulls (2-4 dimensions)
     with calling(f"sample_in_hull(n={n}) x {calls} seeds"):
         X = np.vstack([np.asarray(dreye.sample_in_hull(P, n, seed=s0 + i)).reshape(n, P.shape[1]) for i in range(calls)])
     N = X.shape[0]
